@@ -170,6 +170,8 @@ class Contract:
                 d['decreases'] = _parse(spec['decreases'])
             if spec.get('lemmas'):
                 d['lemmas'] = [_parse(c) for c in spec['lemmas']]
+            if spec.get('lemmas_pres'):
+                d['lemmas_pres'] = [_parse(c) for c in spec['lemmas_pres']]
             self.loops[k] = d
         self.hooks = hooks or {}
         self.name = name or target.split('::')[1]
